@@ -21,7 +21,8 @@ import (
 // C11 — announced peers come back from get_peers, and only those; BEP 32 widths; token present.
 
 // letters: A:<src>:<ih>:<port>:<implied>   announce (token fetched from the same source first)
-//          W:<src>:<ih>:<port>:<implied>   announce with a wrong token (must have no effect)
+//
+//	W:<src>:<ih>:<port>:<implied>   announce with a wrong token (must have no effect)
 var c11Srcs = []string{"v4", "mapped", "v4b", "v6", "other"}
 
 func c11Alphabet(thorough bool) (ls []string) {
